@@ -278,7 +278,7 @@ func (noDeps) FindDependencies(fsys iofs.FS, subPath string, deps *sourcebundle.
 	return nil
 }
 
-var historyOps = []string{"pack-dot-elsewhere", "pack-dot-elsewhere", "pack-negation-first", "pack-many-rules", "pack-unreadable-rules", "pack-other-tree-links", "unpack", "bundle", "pack-same", "pack-deref-loop-fails", "pack-fails-midway"}
+var historyOps = []string{"pack-parent", "pack-dot-elsewhere", "pack-dot-elsewhere", "pack-negation-first", "pack-many-rules", "pack-unreadable-rules", "pack-other-tree-links", "unpack", "bundle", "pack-same", "pack-deref-loop-fails", "pack-fails-midway"}
 
 func runHistoryOp(op, r string, i int, p *slug.Packer) {
 	defer func() { recover() }()
@@ -286,6 +286,13 @@ func runHistoryOp(op, r string, i int, p *slug.Packer) {
 	// entry means a different directory here
 	dir := filepath.Join(r, "h", fmt.Sprintf("hist%d", i))
 	switch op {
+	case "pack-parent":
+		// the directory above the tree under test packed as a source of its own: whatever is remembered
+		// about directories by their path (depth below the root, ...) was learnt for another root
+		func() {
+			defer func() { recover() }()
+			p.Pack(r, &bytes.Buffer{})
+		}()
 	case "pack-negation-first":
 		fsx.Materialise(dir, fsx.Tree{{Path: ".terraformignore", Kind: "file", Content: "!keep.txt\n*.txt\n!/sub/\n"},
 			{Path: "keep.txt", Kind: "file", Content: "k"}, {Path: "x.txt", Kind: "file", Content: "x"}, {Path: ".git/config", Kind: "file", Content: "g"}}, nil)
